@@ -59,7 +59,8 @@ def init_scenarios(run: Run, model: PyModel, rid_as: str | None = None) -> None:
                 st.trace.append(("match", k, args[0] if args else None))
                 return [(Opaque("vmatch", recv.tag) if _m[k - 1] else None, st)]
             if recv.cls == "vmatch" and name == "groupdict":
-                return [(st.alloc(HObj("dict", fields={f"g{recv.tag}": f"from-P{recv.tag}"})), st)]
+                # every match also has a group that matched the empty string: it is a captured variable like any other (a template can tell "" from undefined)
+                return [(st.alloc(HObj("dict", fields={f"g{recv.tag}": f"from-P{recv.tag}", f"e{recv.tag}": ""})), st)]
             if recv.cls == "vmatch" and name == "group":
                 return [(f"from-P{recv.tag}", st)]
             return base_m(I, recv, name, args, kwargs, st, node)
@@ -116,8 +117,9 @@ def init_scenarios(run: Run, model: PyModel, rid_as: str | None = None) -> None:
         if ok_t:
             vm = rendered[0][1]
             ok_g = isinstance(vm, dict) and {k: x for k, x in vm.items() if str(k).startswith("g")} == groups and ("caller passes" not in label or vm.get("other") == "kept")
+            ok_g = ok_g and {k: x for k, x in vm.items() if str(k).startswith("e")} == {"e" + k[1:]: "" for k in groups}
             run.check(R("C16.R2"), f"{label}: the template variables are the groups of that very match", ok_g, "init_from_template", f"{label}: variables {vm}",
-                      f"with {label}, the template receives the variables {vm}, expected the groups {groups} of the winning match only (a variable of the caller with the same name gives way to the capture; its other variables are kept)", file=FILE, node=fi.node)
+                      f"with {label}, the template receives the variables {vm}, expected the groups {groups} of the winning match only, an empty capture included as "" (a variable of the caller with the same name gives way to the capture; its other variables are kept)", file=FILE, node=fi.node)
         ok_w = written == {"/Z/new/page.zo": "RENDERED#1"}
         run.check(R("C16.R3"), f"{label}: the target, and only the target, receives exactly the rendering", ok_w, "init_from_template", f"{label}: wrote {written}",
                   f"with {label}, the files written are {written}, expected only the target /Z/new/page.zo with the rendering", file=FILE, node=fi.node)
